@@ -10,6 +10,7 @@ import (
 	"bytes"
 	"fmt"
 	"io"
+	"math/rand"
 	"reflect"
 	"strings"
 	"unsafe"
@@ -185,7 +186,13 @@ func readBack(t reflect.Type, file []byte, reader string, pointer bool, failAt i
 	}()
 	var out any
 	if pointer {
-		out = reflect.New(t).Interface()
+		// the caller's struct is not necessarily zero when it is handed over
+		pv := reflect.New(t)
+		func() {
+			defer func() { recover() }()
+			genValue(rand.New(rand.NewSource(int64(len(file)))), pv.Elem(), 1)
+		}()
+		out = pv.Interface()
 	} else {
 		out = reflect.New(t).Elem().Interface()
 	}
